@@ -587,3 +587,30 @@ func runSolver(ctx context.Context, sp solverSpec, q string, timeoutS int) Solve
 	}
 	return r
 }
+
+// SolveEach runs every solver of the portfolio to completion on the query (thorough cross-check).
+func SolveEach(query string, timeoutS int) []SolverResult {
+	full := query + "\n(check-sat)\n"
+	solverSem <- struct{}{}
+	defer func() { <-solverSem }()
+	ctx, cancel := context.WithTimeout(context.Background(), time.Duration(timeoutS+2)*time.Second)
+	defer cancel()
+	var out []SolverResult
+	ch := make(chan SolverResult, len(solvers))
+	n := 0
+	for _, sp := range solvers {
+		q := full
+		if sp.prep != nil {
+			q = sp.prep(full)
+			if q == "" {
+				continue
+			}
+		}
+		n++
+		go func(sp solverSpec, q string) { ch <- runSolver(ctx, sp, q, timeoutS) }(sp, q)
+	}
+	for i := 0; i < n; i++ {
+		out = append(out, <-ch)
+	}
+	return out
+}
